@@ -261,7 +261,7 @@ def judge (j : Json) : R Verdict := do
           | .int v => DMeta.int v | .text s => DMeta.text s | .bytes b => DMeta.bytes b)
         let mdLe := fun (a b : Int × DMeta) => decide (a.1 ≤ b.1)
         if sortBy mdLe mdGot != sortBy mdLe d.metadata then spec := spec ++ ["metadata"]
-        if !atx.withdrawals.isEmpty || atx.certs != 0 || atx.donation.isSome then spec := spec ++ ["something-added"]
+        if !atx.withdrawals.isEmpty || !atx.certs.isEmpty || atx.donation.isSome then spec := spec ++ ["something-added"]
         if tx.outputs.any (·.datum.isSome) then tags := tags ++ ["has-datum"]
         if !tx.locals.isEmpty then tags := tags ++ ["locals"]
         if !tx.mints.isEmpty then tags := tags ++ ["mint"]
